@@ -478,7 +478,9 @@ def gen_sentence(rng: random.Random, rules, e, depth=0) -> str:  # noqa: PLR0911
 
 
 EXOTIC_INPUT_CHARS = ["\ud83d", "\ude00", "\ud800", "\udbff", "\udfff", "\U0001F600", "\x00", "\u2028", "\u2029", "\x85", "\r",
-                      "\u00df", "\u0130", "\ufb01", "\uffff", "\U0010ffff"]
+                      "\u00df", "\ufb01", "\uffff", "\U0010ffff"]
+# (not U+0130 / U+0131 / U+212A / U+017F: the `regex` engine folds them onto the ASCII letters i, k, s - the open finding
+#  ci-nonascii-fold, which has its own oracle (ci_fold_oracle) and is outside the models)
 
 
 def gen_inputs(rng: random.Random, rules, start: str, feats: set, n: int) -> list[str]:
